@@ -48,8 +48,6 @@ def jobs(tier):
             js.append(dict(kind="prem", mode=0, large=large, ks=2))
             js.append(dict(kind="prem", mode=1, large=large, ks=1, it=2))
             js.append(dict(kind="prem", mode=1, large=large, ks=1, it=3))
-            for i in range(6):
-                js.append(dict(kind="prem", mode=1, large=large, ks=2, it=2, shard=[i, 6, 40]))
     return js
 
 
@@ -59,7 +57,7 @@ def meta_for(tier):
     m["bounds"] = ["all 2^48 pairs (six symbolic 8-bit channels), large_text x very_readable enumerated",
                    "clause 1: all 10 recursive iterations of mode 1; mode 2 is followed as far as the mode-1 success path needs",
                    "clause 2: the tolerance schedules the strategies pass are truncated to their first %d and last entries (bounded model of the "
-                   "schedule loop); mode 0 fully, mode 1 with the recursion truncated to %d iterations (thorough: 2 iterations with 2-entry schedules and 3 with "
+                   "schedule loop); mode 0 fully, mode 1 with the recursion truncated to %d iterations (thorough adds 3 iterations with "
                    "1-entry schedules); mode 2 reduces to mode 1 plus clause 1" % (b["ks"] - 1, b["it"])]
     m["outside"] = ["longer schedules / more recursive iterations in clause 2 (same loop bodies)", "mode 2 in clause 2"]
     return m
